@@ -90,5 +90,6 @@ package fence
 //@   ensures no-open-transaction-after-failure: result1 != nil ==> ghost.utx != 1 && (ghost.dtx == 1 ==> called("(driver.Tx).Rollback#1"))
 //@   ensures refused-by-the-fence-is-an-error: called("WithFence#1") && callres("WithFence#1", 0) != nil ==> result1 != nil
 //@   let already := cv != nil && cv.(*tm.ContextVariable).FenceTxBegined
+//@   ensures failed-begin-does-not-mark-the-fence-as-passed: result1 != nil && !already && cv != nil ==> !cv.(*tm.ContextVariable).FenceTxBegined
 //@   ensures success-has-both-open: result1 == nil && !already ==> isT(result0, *FenceTx) && ghost.dtx == 1 && ghost.utx == 1
 //@   ensures nested-begin-joins: result1 == nil && already ==> ghost.dtx == 1 && ghost.utx == 0 && !called("WithFence#1")
